@@ -9,12 +9,20 @@ C10 bounded tier: names and order of the output scaffolds, judged on the outputs
     numeric-aware name order
   * chromosome-list CSV (AssemblyStats.chromosome_name_csv): one line per chromosome or unloc scaffold, localised = no
     exactly for unlocs
+"The first haplotype" of a multi-haplotype map is the haplotype of the first painted scaffold of the map in file order
+(whatever its name); a group of homologues is a scaffold of the first haplotype and the painted scaffolds of the other
+haplotypes that follow it up to the next scaffold of the first haplotype.
+Holes in H_1..H_n (haplotigs) and holes in <chromosome>_unloc_1..m are judged apart: only the unloc hole can carry the
+known class c10-unloc-number-hole.
 "Length" of unlocs / haplotigs is not qualified in the statement: a ranking is accepted if it is non-increasing in
 sequence length OR in length including gaps.
 """
 
+import itertools
+import math
 import random
 import re
+from fractions import Fraction
 
 from . import pipeline_gen as pg
 from .common import Collector
@@ -368,6 +376,15 @@ def naming_problems(case, run):
                 if chrom_of[a][1] != chrom_of[b][1]:
                     P(f"homologues Scaffold_{a} and Scaffold_{b} got different numbers {chrom_of[a][1]} and {chrom_of[b][1]}")
 
+    if len(haps) >= 3:
+        # a group: a scaffold of the first haplotype and the scaffolds of the other haplotypes up to the next one of the first
+        leader = None
+        for k in painted:
+            if infos[k - 1]["hap"].lower() == haps[0]:
+                leader = k
+            elif leader in chrom_of and k in chrom_of and chrom_of[leader][1] != chrom_of[k][1]:
+                P(f"homologues Scaffold_{leader} and Scaffold_{k} got different numbers {chrom_of[leader][1]} and {chrom_of[k][1]}")
+
     # -- chromosome list CSV
     stats = run.build.assembly_stats
     for key, asm in out.items():
@@ -527,6 +544,181 @@ def make_case(rng, idx, allow_unloc_only=True):
     return {"input": inp, "map": mp, "prefix": prefix, "via": pg.pick_via(inp, idx), "mode": "two" if two else "single"}
 
 
+# ------------------------------------------------------------------------------- enumerated: order of the haplotypes
+
+HAP_SETS2 = (("Hap1", "Hap2"), ("HAP1", "HAP2"), ("Mat", "Pat"), ("hapA", "hapB"))
+HAP_SETS3 = (("Hap1", "Hap2", "Hap3"), ("Mat", "Pat", "Alt"))
+FIRST_SIZES = (400, 300, 200)  # chromosomes of the first haplotype
+OTHER_SIZES = (100, 500, 900)  # their homologues: a group's rank by its first haplotype differs from its rank by the others, by the sum and by the largest member
+
+
+def hap_order_case(order, sizes, bpt, rng, n, extra=None):
+    """
+    order   the haplotype tags in the order of their first appearance in the map
+    sizes   {tag: [chromosome length per group]}; the painted scaffolds are written group by group, inside a group in `order`
+    extra   None | ("double", g)  the LAST haplotype of `order` has a second homologue (60 bp) in group g
+                 | ("unloc", g)   the first haplotype's chromosome of group g is followed by a 250 bp Unloc piece
+                 | ("single", g)  group g has no homologue of the last haplotype (its first-haplotype scaffold is tagged Singleton)
+    """
+    inp = []
+    plan = []
+
+    def src(h, size):
+        name = f"{h.upper()}_SCAFFOLD_{len(inp) + 1}"
+        sc = pg.make_scaffold(name, [size], [rng.choice((1, -1))], None, "fasta", tag=str(len(inp) + 1))
+        inp.append(sc)
+        return pg.pieces_of(sc, bpt, "floor", ())[0]
+
+    for g in range(len(sizes[order[0]])):
+        for h in order:
+            here = extra is not None and extra[1] == g
+            if here and extra[0] == "single" and h == order[-1]:
+                continue
+            pcs = [(src(h, sizes[h][g]), rng.choice((1, -1)), [])]
+            if here and extra[0] == "unloc" and h == order[0]:
+                pcs.append((src(h, 250), rng.choice((1, -1)), ["Unloc"]))
+            plan.append({"painted": True, "hap": h, "name_tag": None, "singleton": here and extra[0] == "single" and h == order[0], "pieces": pcs})
+            if here and extra[0] == "double" and h == order[-1]:
+                plan.append({"painted": True, "hap": h, "name_tag": None, "pieces": [(src(h, 60), rng.choice((1, -1)), [])]})
+    mp = pg.plan_to_map(plan, bpt, rng)
+    return {"input": inp, "map": mp, "prefix": ("SUPER_", "chr", "Chr_")[n % 3], "via": pg.pick_via(inp, n), "mode": ("two", "three")[len(order) - 2], "family": "hap-order"}
+
+
+def hap_order_cases(tier, rng):
+    """
+    ENUMERATED scope "the first haplotype decides": maps of 2 or 3 haplotypes (tag sets HAP_SETS2 / HAP_SETS3) with EVERY order
+    of first appearance of the haplotype tags, 3 groups of homologues (quick: also 2), the first haplotype's chromosomes 400 /
+    300 / 200 bp in every order, the other haplotypes' homologues 100 / 500 / 900 bp in every order (so the size order differs
+    between the haplotypes, and from the order by sum or by largest member); every fourth case with a second homologue of
+    the last haplotype in a group, an Unloc piece that lifts a first-haplotype chromosome over a longer one, or a Singleton.
+    quick: every tag set x order of appearance x order of the first haplotype's sizes (three haplotypes: two of the six), one or two of
+    the others' size orders in rotation; thorough: all.
+    """
+    quick = tier == "quick"
+    n = 0
+    for n_hap, sets in ((2, HAP_SETS2), (3, HAP_SETS3)):
+        for tags in sets:
+            for pi, order in enumerate(itertools.permutations(tags)):
+                firsts = list(itertools.permutations(FIRST_SIZES))
+                others = list(itertools.product(itertools.permutations(OTHER_SIZES), repeat=n_hap - 1))
+                for fi, first in enumerate(firsts):
+                    if quick and n_hap == 3 and fi % 3 != order.index(tags[0]):
+                        continue
+                    pick = (fi * 5 + pi * 7 + len(tags[0])) % len(others)
+                    for oi, other in enumerate(others):
+                        if quick and oi != pick and (n_hap == 3 or oi != (pick + 3) % len(others)):
+                            continue
+                        n += 1
+                        n_groups = 2 if quick and n % 3 == 0 else 3
+                        sizes = {order[0]: list(first[:n_groups])}
+                        for h, o in zip(order[1:], other, strict=True):
+                            sizes[h] = list(o[:n_groups])
+                        extra = None
+                        if n % 4 == 0:
+                            extra = (("double", "unloc", "single")[(n // 4) % 3], (n // 12) % n_groups)
+                        yield hap_order_case(order, sizes, (1.0, 10.0)[n % 2], rng, n, extra)
+
+
+# ------------------------------------------------------------------------------- enumerated: pieces that come to nothing
+
+
+def sliver_host(kind, bpt, name, naming, tag, rng):
+    """
+    an input scaffold and its PretextView pieces, one of which (-> its index) is too small to be resolved at this texel size:
+      trim_end / trim_start  the last / first texel of a 30-texel contig
+      resolver               contig A, 100 bp gap, a short contig B lying across a texel boundary, 10 bp gap, contig C (150 bp),
+                             cut in front of the gap and on the boundary inside B: the middle piece holds the gap and the smaller
+                             part of B (less than a texel), the third piece the rest of B and C
+    """
+    f = pg.bptF(bpt)
+    if kind in ("trim_end", "trim_start"):
+        m = 30
+        sc = pg.make_scaffold(name, [math.floor(m * f)], [rng.choice((1, -1))], None, naming, tag=tag)
+        n = pg.texels(pg.rows_len(sc["rows"]), bpt, "ceil")
+        pcs = pg.pieces_of(sc, bpt, "ceil", (n - 1,) if kind == "trim_end" else (1,))
+        return sc, pcs, (1 if kind == "trim_end" else 0)
+    len_b, left = {1.0: (2, 1), 2.5: (3, 1), 10.0: (7, 3), 33.3: (40, 13)}[bpt]
+    tb = math.ceil(Fraction(230) / f)
+    bb = math.floor(tb * f)  # last base in front of the texel boundary inside B
+    len_a = bb - left - 100
+    sc = pg.make_scaffold(name, [len_a, len_b, 150], [rng.choice((1, -1)) for _ in range(3)], [(100, "scaffold"), (10, "scaffold")], naming, tag=tag)
+    n = pg.texels(pg.rows_len(sc["rows"]), bpt, "floor")
+    ta = math.ceil(Fraction(len_a + 40) / f)
+    pcs = pg.pieces_of(sc, bpt, "floor", (ta, tb))
+    return sc, pcs, 1
+
+
+def emptied_piece_case(series, kind, pos, sizes, bpt, rng, n, tail=False):
+    """
+    series "haplotig": a painted chromosome, then len(sizes) + 1 Haplotig pieces in Pretext order, the one at position `pos`
+           being the unresolvable piece of sliver_host(kind) (its scaffold is painted, the other pieces of it are plain), the
+           others whole input scaffolds of `sizes` bp in unpainted scaffolds of their own (tail: behind a painted chromosome)
+    series "unloc": ONE painted scaffold: a 400 bp chromosome piece, then len(sizes) + 1 Unloc pieces, the one at position `pos`
+           being the unresolvable piece (its neighbours of the same input scaffold stay plain pieces next to it)
+    """
+    inp = []
+    naming = ("own", "fasta", "offset")[n % 3]
+
+    def src(size):
+        i = len(inp) + 1
+        sc = pg.make_scaffold(f"scaffold_{i}", [size], [rng.choice((1, -1))], None, naming, tag=str(i))
+        inp.append(sc)
+        return pg.pieces_of(sc, bpt, "floor", ())[0]
+
+    tag = {"haplotig": "Haplotig", "unloc": "Unloc"}[series]
+    plan = [{"painted": True, "hap": None, "name_tag": None, "pieces": [(src(400), rng.choice((1, -1)), [])]}]
+    host, host_pcs, sliver = sliver_host(kind, bpt, f"scaffold_{len(inp) + 1}", naming, str(len(inp) + 1), rng)
+    inp.append(host)
+    host_plan = [(pc, 1 if kind == "resolver" else rng.choice((1, -1)), [tag] if j == sliver else []) for j, pc in enumerate(host_pcs)]
+    real = list(sizes)
+    if series == "haplotig":
+        for i in range(len(sizes) + 1):
+            if i == pos:
+                plan.append({"painted": True, "hap": None, "name_tag": None, "pieces": host_plan})
+            else:
+                pc = (src(real.pop(0)), rng.choice((1, -1)), ["Haplotig"])
+                if tail:
+                    plan.append({"painted": True, "hap": None, "name_tag": None, "pieces": [(src(300), 1, []), pc]})
+                else:
+                    plan.append({"painted": False, "hap": None, "name_tag": None, "pieces": [pc]})
+    else:
+        pcs = plan[0]["pieces"]
+        for i in range(len(sizes) + 1):
+            if i == pos:
+                pcs.extend(host_plan)
+            else:
+                pcs.append((src(real.pop(0)), rng.choice((1, -1)), ["Unloc"]))
+        plan.append({"painted": True, "hap": None, "name_tag": None, "pieces": [(src(300), 1, [])]})
+    mp = pg.plan_to_map(plan, bpt, rng)
+    return {"input": inp, "map": mp, "prefix": ("SUPER_", "chr")[n % 2], "via": pg.pick_via(inp, n), "mode": "single", "family": f"emptied-{series}"}
+
+
+def emptied_piece_cases(tier, rng):
+    """
+    ENUMERATED scope "a numbered piece comes to nothing": a series of 3-4 Haplotig pieces (H_1..H_n) or of 3-4 Unloc pieces of
+    one chromosome (<chromosome>_unloc_1..m) one of which - the first, a middle or the last of the series in Pretext order -
+    cannot be resolved at the map's texel size (sliver_host: the last or first texel of a long contig, or the smaller part of a
+    sub-texel contig shared with the neighbouring piece), the others 150 / 90 / 40 bp (thorough: also 90 / 90 / 40) in every order.
+    The numbers of the scaffolds that ARE written must be 1..n without holes in non-increasing length, wherever the lost piece
+    stood.  (Unloc series with a piece lost to the neighbour AFTER the unlocs were numbered: known class c10-unloc-number-hole.)
+    """
+    quick = tier == "quick"
+    n = 0
+    for series in ("haplotig", "unloc"):
+        for kind in ("trim_end", "trim_start", "resolver"):
+            for n_real, pos in ((2, 0), (2, 1), (2, 2), (3, 0), (3, 1), (3, 2), (3, 3)):
+                for size_set in ((150, 90, 40),) if quick else ((150, 90, 40), (90, 90, 40)):
+                    orders = sorted(set(itertools.permutations(size_set[:n_real] if n_real == 2 else size_set)))
+                    for oi, sizes in enumerate(orders):
+                        for bpt in (1.0, 10.0, 33.3, 2.5):
+                            n += 1
+                            if quick and (oi + pos + (bpt == 10.0)) % len(orders) != 0:
+                                continue
+                            if quick and bpt not in (10.0, (1.0, 33.3)[pos % 2]):
+                                continue
+                            yield emptied_piece_case(series, kind, pos, sizes, bpt, rng, n, tail=n % 3 == 0)
+
+
 def _fx(name, *rows):
     return {"name": name, "rows": list(rows)}
 
@@ -567,18 +759,33 @@ def run(tier, seed, **opts):
         "haplotype order, 15 % singletons) each built from 1-2 whole input scaffolds (30 % of the maps: cut at texel "
         "boundaries), 0-3 Unloc pieces, 15 % a Haplotig piece, 20 % name-tagged (X, Y, W, Z, B1, B2), 0.4 % unloc-only; 0-4 "
         "unplaced scaffolds (40 % tagged Haplotig); contig lengths from {20,40,40,70,150,150,400} so that equal sizes are "
-        "frequent; prefixes SUPER_/chr/Chr_; oracle: names, numbering, size ranking, order and CSV from the statement; "
+        "frequent; prefixes SUPER_/chr/Chr_; PLUS enumerated: maps of 2-3 haplotypes with every order of first appearance of the "
+        "haplotype tags and chromosome sizes whose order differs between the haplotypes; series of 3-4 Haplotig / Unloc pieces one of "
+        "which (first, middle, last) is too small to be resolved and is not written; oracle: names, numbering, size ranking, order and CSV from the statement; "
         "non-trivial = distinct completed case with >= 2 painted scaffolds or an Unloc/Haplotig piece"
     )
     n_cases = 3500 if tier == "quick" else 80000
-    stats = {"rejected_tagging": 0, "judged": 0, "single": 0, "two": 0}
+    stats = {"rejected_tagging": 0, "judged": 0, "single": 0, "two": 0, "three": 0, "hap-order": 0, "emptied-haplotig": 0, "emptied-unloc": 0, "enumerated_rejected": 0}
     side = {}
-    for i in range(-len(FIXED_CASES), n_cases):
+
+    def stream():
+        for c in FIXED_CASES:
+            yield -1, c
+        for c in hap_order_cases(tier, random.Random(f"c10-hap-order-{seed}")):
+            yield -1, c
+        for c in emptied_piece_cases(tier, random.Random(f"c10-emptied-{seed}")):
+            yield -1, c
+        for j in range(n_cases):
+            yield j, make_case(rng, j)
+
+    for i, case in stream():
         if col.full:
             break
-        case = FIXED_CASES[i] if i < 0 else make_case(rng, i)
         judged = check(case, col, side)
         stats[case["mode"]] += 1
+        if case.get("family"):
+            stats[case["family"]] += 1
+            stats["enumerated_rejected"] += judged is None
         if judged is None:
             stats["rejected_tagging"] += 1
         else:
@@ -590,10 +797,11 @@ def run(tier, seed, **opts):
         col.failures.extend(lst[:2])
     return col.result(
         bounds=(
-            f"{len(FIXED_CASES)} fixed hand-made cases + {n_cases} seeded cases; up to ~40 input scaffolds x <= 3 contigs (lengths 7-400, gaps 1-200); texel sizes {{1,2.5,10,33.3}}; painted scaffolds / "
+            f"{len(FIXED_CASES)} fixed hand-made cases + {stats['hap-order']} enumerated haplotype-order cases + {stats['emptied-haplotig']} / {stats['emptied-unloc']} "
+            f"enumerated lost-piece cases in a Haplotig / Unloc series ({stats['enumerated_rejected']} enumerated cases rejected) + {n_cases} seeded cases; up to ~40 input scaffolds x <= 3 contigs (lengths 7-400, gaps 1-200); texel sizes {{1,2.5,10,33.3}}; painted scaffolds / "
             f"unloc pieces whose destination was identified and judged: {stats['judged']}; maps rejected with "
             f"TaggingError/ChrNamerError (allowed): {stats['rejected_tagging']}; single-haplotype={stats['single']} "
-            f"two-haplotype={stats['two']}; cases failing only in a named class: "
+            f"two-haplotype={stats['two']} three-haplotype={stats['three']}; cases failing only in a named class: "
             + (", ".join(f"{'+'.join(k)}={len(v)}" for k, v in side.items()) or "none")
         ),
         exhaustive=False,
